@@ -61,14 +61,27 @@ def run(ctx: Ctx) -> None:
                construct="matrices passed on")
         return
     dname, fname = ast.unparse(sup.args[0]), ast.unparse(sup.args[1])
+    from sa.kern import py_calls as _pc
+    ev = make_evaluator(repo, fi, extra_call=_pc)
+    npar = Poly.atom(("app", "len", (Poly.var(fi.params[1]),)))
 
     def zeros_init(nm: str) -> bool:
-        return any(isinstance(s, (ast.Assign, ast.AnnAssign)) and isinstance(
-            s.value, ast.Call) and ast.unparse(s.value.func) in (
-            "np.zeros",) and ast.unparse(
-            s.targets[0] if isinstance(s, ast.Assign) else s.target) == nm
-            and ast.unparse(s.value.args[0]).replace(" ", "") == "(n,n)"
-            for s in body)
+        """`nm = np.zeros((n, n), ...)` with n = len(<matrix parameter>),
+        by value."""
+        for s in body:
+            if isinstance(s, (ast.Assign, ast.AnnAssign)) and isinstance(
+                    s.value, ast.Call) and ast.unparse(s.value.func) in (
+                    "np.zeros",) and ast.unparse(
+                    s.targets[0] if isinstance(s, ast.Assign)
+                    else s.target) == nm and s.value.args:
+                sh = inline_locals(fi.node, s.value.args[0])
+                if isinstance(sh, ast.Tuple) and len(sh.elts) == 2:
+                    try:
+                        if all(ev.num(Env(), x_) == npar for x_ in sh.elts):
+                            return True
+                    except Unsupported:
+                        pass
+        return False
 
     def stores(nm: str) -> list[tuple[ast.Assign, list[ast.AST]]]:
         out = []
